@@ -35,6 +35,14 @@ theorem C16_immutable_fetch_complete (es : List ImmEv) (s : ImmState) (h : immRu
     (c : Content) (hf : immFetch s = some c) : ∃ v, c = .complete v ∧ v ∈ s.stored :=
   imm_fetch_complete es s h c hf
 
+/-- "A Store that reports success makes its version the one that subsequent Fetches return": after any
+    history, once an upload has finished and its `.part` suffix has been dropped, the next Fetch installs
+    that very version (it is the newest file without suffix: every other file is older than the clock) -/
+theorem C16_immutable_store_then_fetch (es : List ImmEv) (s s1 s2 : ImmState) (id v : Nat)
+    (h : immRun ImmState.init es = some s) (h1 : immStep s (.finishPart id v) = some s1)
+    (h2 : immStep s1 (.rename id) = some s2) : immFetch s2 = some (.complete v) :=
+  imm_store_then_fetch es s s1 s2 id v h h1 h2
+
 /-- MUTABLE CACHE — the same, for every history of Store steps stopped anywhere and whatever the hash
     side file holds (stale, missing, colliding): an archive cut short does not unpack -/
 theorem C16_mutable_fetch_complete (hashOf : Content → Nat) (es : List MutEv) (s : MutState)
